@@ -347,6 +347,27 @@ class Verifier:
         if got != "".join(texts):
             self.fail("text:line", "%s: get_text()=%r, members give %r" % (ctx, got[:80], "".join(texts)[:80]))
         self.stats["glyphs_in_lines"] += len(chars)
+        # "every line holds glyphs of one orientation": LAParams documents that two characters go on the same
+        # line when they overlap by more than line_overlap (>= 0) of the smaller one, so two consecutive glyphs of
+        # a horizontal line share a y-interval of positive length (x-interval in a vertical line).  A glyph of zero
+        # height (width) has no overlap to measure: such pairs are skipped.
+        if h != v:
+            for a, b in zip(chars, chars[1:]):
+                if h:
+                    degenerate = a.y1 <= a.y0 or b.y1 <= b.y0
+                    ok = a.y0 < b.y1 and b.y0 < a.y1
+                else:
+                    degenerate = a.x1 <= a.x0 or b.x1 <= b.x0
+                    ok = a.x0 < b.x1 and b.x0 < a.x1
+                if degenerate:
+                    self.stats["line_pairs_skipped_degenerate"] += 1
+                elif not ok:
+                    self.fail("line:%s" % ("horizontal_glyphs_without_vertical_overlap" if h else "vertical_glyphs_without_horizontal_overlap"),
+                              "%s %s: consecutive glyphs %r %r and %r %r share no %s-interval"
+                              % (ctx, _short(ln), a.get_text(), tuple(a.bbox), b.get_text(), tuple(b.bbox), "y" if h else "x"))
+                    break
+                else:
+                    self.stats["line_pairs_overlap_checked:" + ("H" if h else "V")] += 1
         return "H" if h and not v else "V" if v and not h else None
 
     def bbox(self, o: Any, want: Tuple[float, float, float, float], kind: str, ctx: str) -> None:
